@@ -12,17 +12,17 @@ partial def loop (h : IO.FS.Stream) (t : Tree) : IO Unit := do
   | ["new"] => IO.println "ok"; loop h Tree.nil
   | ["ins", k, v, id] =>
     let (t', ok) := insert t id.toNat! k.toNat! v.toNat!
-    IO.println s!"{ok} {t'.dump} min={t'.minId} max={t'.maxId} n={t'.size}"
+    IO.println s!"{ok} {t'.dumpP 0} min={t'.minId} max={t'.maxId} n={t'.size}"
     loop h t'
   | ["del", k] =>
     let (t', fr) := delete t k.toNat!
-    IO.println s!"{fr.isSome} {t'.dump} min={t'.minId} max={t'.maxId} n={t'.size}"
+    IO.println s!"{fr.isSome} {t'.dumpP 0} min={t'.minId} max={t'.maxId} n={t'.size}"
     loop h t'
   | ["deep", ids] =>
     -- ids = the indices the target allocator handed out, in in-order
     let l := if ids = "-" then [] else (ids.splitOn ",").filterMap (·.toNat?)
     let t' := cloneDeep t l
-    IO.println s!"{t'.dump} min={t'.minId} max={t'.maxId} n={t'.size}"
+    IO.println s!"{t'.dumpP 0} min={t'.minId} max={t'.maxId} n={t'.size}"
     loop h t
   | ["q", k] =>
     let k := k.toNat!
